@@ -663,6 +663,47 @@ fn run_container(cx: &mut Ctx, enc: &Encoded, label: &str) -> Option<Vec<u8>> {
     if imp != want && valid {
         cx.rep.fail("impl_vs_spec", &format!("dec:{}:{sig_shape}", wrong(&imp)), &format!("ser {desc}"), &imp, model, &want);
     }
+    // the same container with the UNUSED bits of every last flag byte (behind the last token of a chunk) set at
+    // random: MS-OVBA stops at the end of the chunk whatever those bits say; the spec encoder (and every usual
+    // compressor) writes zeros there (seeded change C18-m22). One container in two; it is also the one handed on to
+    // the project stage.
+    let h = fnv64(desc.as_bytes());
+    if valid && h % 2 == 1 {
+        let mut padded = container.clone();
+        let mut pos = 1usize;
+        let mut touched = false;
+        let mut bits = h >> 8;
+        for c in &enc.chunks {
+            match c {
+                Chunk::Raw(_) => pos += 2 + 4096,
+                Chunk::Comp(toks) => {
+                    let g = toks.len() % 8;
+                    if g != 0 {
+                        let full = toks.len() - g;
+                        let last_flag = pos + 2 + ser_len(&toks[..full]);
+                        let pad = ((bits & 0xFF) as u8 | 1 << g) & (0xFFu8 << g);
+                        bits = bits.rotate_right(8) ^ 0x9E37;
+                        padded[last_flag] |= pad;
+                        touched = true;
+                    }
+                    pos += 2 + ser_len(toks);
+                }
+            }
+        }
+        if touched {
+            cx.rep.count("container-with-padding-bits-set-in-last-flag-bytes");
+            let (imp2, _) = impl_dec(&padded);
+            let model2 = cx.drv.ask(&format!("decd {}", hex(&padded)));
+            let input = format!("dec {}", hex(&padded));
+            if imp2 != model2 {
+                cx.rep.fail("impl_vs_model", &format!("dec-padding-bits:{}", wrong(&imp2)), &input, &imp2, &model2, &want);
+            }
+            if imp2 != want {
+                cx.rep.fail("impl_vs_spec", &format!("dec-padding-bits:{}", wrong(&imp2)), &input, &imp2, &model2, &want);
+            }
+            return Some(padded);
+        }
+    }
     Some(container)
 }
 
@@ -1675,13 +1716,37 @@ fn run_project_spec(cx: &mut Ctx, p: &ProjSpec, label: &str, dup: Option<(u8, bo
     rng.shuffle(&mut streams[..]);
     let mut opts = CfbOpts::random(rng);
     if rng.chance(1, 3) {
+        // the root entry gives the mini stream its exact length; the partial last mini sector belongs to a stream of
+        // the project (seeded change C18-m21): sequential mini sectors, such a stream last
+        if let Some(k) = streams.iter().rposition(|(n, d)| (n == "dir" || p.mods.iter().any(|m| m.stream.1 == *n)) && d.len() < 4096 && d.len() % 64 != 0) {
+            if dup.is_none() && label != "project-fault" {
+                let st = streams.remove(k);
+                streams.push(st);
+                opts.unpadded_root = true;
+                opts.mini_shuffle = false;
+                cx.rep.count("project:cfb-root-entry-with-exact-mini-stream-length");
+            }
+        }
+    }
+    // With an exact root size the unchanged reader is correct as long as no REGULAR-sector stream is fetched after
+    // the partial last mini sector has been read; otherwise it returns wrong bytes (known finding, see
+    // findings/C18.json): those containers carry their own signature
+    let label_owned;
+    let label: &str = if opts.unpadded_root && streams.iter().any(|(_, d)| d.len() >= 4096) {
+        cx.rep.count("project:cfb-root-entry-with-exact-mini-stream-length:and-a-regular-sector-stream");
+        label_owned = format!("{label}:exact-root-size+regular-stream");
+        &label_owned
+    } else {
+        label
+    };
+    if rng.chance(1, 3) {
         // over-allocated chains: spare (mini) sectors behind every stream (seeded change C18-m18)
         opts.spare_sectors = rng.range(1, 3) as usize;
         cx.rep.count("project:cfb-over-allocated-chains");
     }
     let n_fat = FAT_SECTORS.with(|c| c.replace(0));
     if n_fat > 0 {
-        opts = CfbOpts { sector_size: 512, free_after_tables: true, unused_dirs: opts.unused_dirs, fill: opts.fill, spare_sectors: opts.spare_sectors, ..CfbOpts::default() };
+        opts = CfbOpts { sector_size: 512, free_after_tables: true, unused_dirs: opts.unused_dirs, fill: opts.fill, spare_sectors: opts.spare_sectors, unpadded_root: opts.unpadded_root, ..CfbOpts::default() };
         match verif_harness::cfbw::extra_free_for_fat_sectors(&streams, &opts, n_fat) {
             Some(f) => opts.extra_free = f - rng.below(100.min(f as u64 + 1)) as usize,
             None => return,
@@ -1900,6 +1965,13 @@ fn zip_with_project(path: &str, bin: &[u8], rng: &mut Rng) -> Vec<u8> {
         if name == "xl/vbaProject.bin" {
             w.write_all(bin).unwrap();
             wrote = true;
+        } else if name == "xl/_rels/workbook.xml.rels" && path.ends_with(".xlsm") {
+            // the vbaProject relationship addresses the macro part relatively, with a `./` prefix, or by its absolute
+            // part name (openpyxl style); all three are the part xl/vbaProject.bin (seeded change C18-m23)
+            let target = *rng.pick(&["vbaProject.bin", "/xl/vbaProject.bin", "./vbaProject.bin"]);
+            let text = String::from_utf8_lossy(data).replace("Target=\"vbaProject.bin\"", &format!("Target=\"{target}\""));
+            assert!(target == "vbaProject.bin" || text.contains(target), "template has no vbaProject relationship");
+            w.write_all(text.as_bytes()).unwrap();
         } else {
             w.write_all(data).unwrap();
         }
